@@ -60,7 +60,7 @@ RAGGED = {
     "mdcrd": ["atom-count", "drop-cell", "add-cell"],
     "xyz": ["atom-count"],
     "lammpstrj": ["atom-count"],
-    "gro": ["atom-count", "drop-cell", "add-cell", "drop-time", "add-time"],
+    "gro": ["atom-count", "drop-time", "add-time", "drop-cell", "add-cell"],
     "pdb": ["atom-count"],
     "dtr": ["atom-count"],
 }
@@ -188,7 +188,7 @@ def check_partitions(chk, tier, seed):
             for mode in (["w", "a"] if fmt == "h5" else ["w"]):
                 for cell, time in SCHEMAS[fmt]:
                     for na in atoms:
-                        for n in range(1, nmax + 1):
+                        for n in list(range(1, nmax + 1)) + ([] if tier == "quick" or na != N_ATOMS else [8, 13]):
                             t = make_traj(n_frames=n, n_atoms=na, cell="ortho", seed=seed)
                             ref_path = os.path.join(d, f"ref.{_ext(fmt)}")
                             _rm(ref_path)
@@ -203,7 +203,7 @@ def check_partitions(chk, tier, seed):
                             if ref["n_frames"] != n:
                                 chk.observe(f"one-shot file does not load with n frames [{CLASSNAME[fmt]}; cell={cell}; time={time}]", {**inp0, "loaded": ref["n_frames"]})
                                 continue
-                            for parts in compositions(n):
+                            for parts in _parts_for(n, nmax, seed):
                                 if len(parts) == 1 and mode == "w":
                                     continue
                                 inp = {**inp0, "parts": parts}
@@ -230,6 +230,18 @@ def check_partitions(chk, tier, seed):
                                              expected={"n_frames": ref["n_frames"], "time": ref["time"], "frame_ids": _ids(ref)})
                                 else:
                                     chk.ok(nontrivial=(fmt, mode, cell, time, na, tuple(parts)) if len(parts) > 1 else None, sample=inp)
+
+
+def _parts_for(n, nmax, seed):
+    """every composition up to the bound; beyond it 6 seeded random compositions"""
+    if n <= nmax:
+        return list(compositions(n))
+    rng = np.random.RandomState(seed * 1000 + n)
+    out = []
+    for _ in range(6):
+        cuts = sorted(set(rng.randint(1, n, size=rng.randint(1, n)).tolist()))
+        out.append([b - a for a, b in zip([0] + cuts, cuts + [n])])
+    return out
 
 
 def _ids(f):
@@ -362,9 +374,9 @@ for i, n in enumerate(batches):
     c19.write_batch(a["format"], f, t, pos, pos + n, True, True)
     pos += n
     last = i == len(batches) - 1
-    if position == "after-flush" or (position == "after-write" and not last):
-        f.flush()
-if position == "before-close":
+    if (position == "after-flush" or (position == "after-write" and not last)) and hasattr(f, "flush"):
+        f.flush()  # "where offered"
+if position == "before-close" and hasattr(f, "flush"):
     f.flush()
 sys.stdout.write("WRITTEN %d\n" % pos)
 sys.stdout.flush()
@@ -486,7 +498,7 @@ def _mk(tier):
     nmax = 4 if tier == "quick" else 5
     kmax = 2 if tier == "quick" else 3
     a = ObsCheck("partitions", "write()/close() of " + ", ".join(CLASSNAME.values()) + " (+ HDF5 mode 'a'); md.load",
-                 bound=f"every composition of n frames, n <= {nmax}, into consecutive write() calls x 11 writer classes (+ HDF5 append sessions) x every (cell,time) schema "
+                 bound=f"every composition of n frames, n <= {nmax}{'' if tier == 'quick' else ' (+ 6 seeded random compositions of n = 8 and n = 13)'}, into consecutive write() calls x 11 writer classes (+ HDF5 append sessions) x every (cell,time) schema "
                        f"the class accepts x atoms in {[N_ATOMS] if tier == 'quick' else [N_ATOMS, 11]}; per-frame varying orthorhombic cell, non-uniform times",
                  rule="exhaustive; oracle = md.load of the one-shot file [n]; arrays compared exactly; non-trivial = at least two write calls",
                  stands_in_for="writer invariant Rep(W) of the pyx writers (xtc, trr, dcd, dtr) and of PyTables / netCDF4 append", exhaustive=True)
